@@ -21,6 +21,7 @@ import (
 	"reflect"
 	"runtime"
 	"strings"
+	"unsafe"
 )
 
 type c10Drv struct {
@@ -163,8 +164,16 @@ func (d *c10Drv) bitReverseIdx(logn int, twice bool, sample int) {
 	n := 1 << logn
 	s := d.elemSlice(n)
 	w0 := func(i int) reflect.Value { return s.Index(i).Index(0) }
-	for i := 0; i < n; i++ {
-		w0(i).SetUint(uint64(i))
+	if d.f.WBits == 64 && n >= 1<<16 {
+		// large slices: write the index into limb 0 of every element directly (reflection costs seconds per 2^24 entries)
+		base := unsafe.Slice((*uint64)(s.UnsafePointer()), n*d.f.Limbs)
+		for i := 0; i < n; i++ {
+			base[i*d.f.Limbs] = uint64(i)
+		}
+	} else {
+		for i := 0; i < n; i++ {
+			w0(i).SetUint(uint64(i))
+		}
 	}
 	e := Ev{"op": "BitReverseIdx", "logn": logn, "twice": twice}
 	if sample > 0 {
@@ -666,7 +675,7 @@ func runC10(args []string) {
 	tier := fs.String("tier", "quick", "quick|thorough")
 	config := fs.String("config", "default", "configuration label")
 	only := fs.String("fields", "", "comma separated field names (default: the 10 FFT fields)")
-	parts := fs.String("parts", "", "comma separated part names (default all): dom,m1,m2,m3,big,sweep,brbig")
+	parts := fs.String("parts", "", "comma separated part names (default all): dom,m1,m2,m3,big,sweep,brbig,brhuge")
 	raceLog := fs.String("racelog", "", "GORACE log_path prefix: a RaceReport event with the number of reports is appended")
 	fs.Parse(args)
 	names := c10Names
@@ -876,6 +885,21 @@ func runC10(args []string) {
 			for _, r := range [][2]int{{1, 128}, {129, 256}, {257, 384}, {385, 512}} {
 				d := open(fmt.Sprintf("sweep_%d", r[0]))
 				d.scTasksSweep(7, []int{0, 1}, r[0], r[1])
+			}
+		}
+		// the specialised in-place permutations (one routine per size 2^21 .. 2^27, fields with the cobra variants): sampled
+		// positions of the index vector. goldilocks has the smallest elements (2^27 entries = 1 GiB); thorough adds bn254/fr
+		if want("brhuge") && (name == "goldilocks" || (thorough && name == "bn254/fr")) {
+			d := open("brhuge")
+			top := 27
+			if name != "goldilocks" {
+				top = 26
+			}
+			for logn := 19; logn <= top; logn++ {
+				d.bitReverseIdx(logn, false, 3000)
+				if thorough {
+					d.bitReverseIdx(logn, true, 3000)
+				}
 			}
 		}
 		if want("brbig") && thorough && name == "koalabear" {
